@@ -14,6 +14,7 @@ import (
 	"sort"
 	"strings"
 	"sync"
+	"syscall"
 	"testing"
 	"testing/synctest"
 	"time"
@@ -21,9 +22,11 @@ import (
 	"github.com/emersion/go-message/textproto"
 	"github.com/emersion/go-smtp"
 	"github.com/foxcpp/maddy/framework/buffer"
+	"github.com/foxcpp/maddy/framework/exterrors"
 	"github.com/foxcpp/maddy/framework/log"
 	"github.com/foxcpp/maddy/framework/module"
 	"github.com/foxcpp/maddy/internal/target/queue"
+	"github.com/foxcpp/maddy/verifharness/scripted"
 	"github.com/foxcpp/maddy/verifharness/vtrace"
 )
 
@@ -44,6 +47,7 @@ type MsgShape struct {
 type PStep struct {
 	A string   `json:"a"`
 	D []string `json:"d"`
+	P []string `json:"p"` // recipients that fail permanently in this attempt (a failure report is generated)
 }
 
 type PBehaviour struct {
@@ -104,6 +108,10 @@ func bodyBytes(shape string, rng *rand.Rand) []byte {
 		b := make([]byte, 1500*1024)
 		rng.Read(b)
 		return b
+	case "faulty": // handed to the queue in a buffer whose reader fails half-way
+		b := make([]byte, 512*1024)
+		rng.Read(b)
+		return b
 	}
 	panic("unknown body shape " + shape)
 }
@@ -116,6 +124,8 @@ func senderAddr(shape string) string {
 		return "sender@example.com"
 	case "idn":
 		return "отправитель@пример.example"
+	case "idndom":
+		return "sender@пример.example"
 	case "quoted":
 		return "\"quoted sender\\\"x\"@example.com"
 	}
@@ -133,6 +143,7 @@ type pTarget struct {
 	mu      sync.Mutex
 	att     int
 	plan    [][]string // delivered ids per attempt
+	perm    [][]string // permanently failed ids per attempt
 	wantHdr []byte
 	wantBdy []byte
 	shape   MsgShape
@@ -206,12 +217,62 @@ func (d *pDelivery) BodyNonAtomic(ctx context.Context, c module.StatusCollector,
 	for _, x := range deliver {
 		ok[x] = true
 	}
+	perm := map[string]bool{}
+	if d.att-1 < len(d.t.perm) {
+		for _, x := range d.t.perm[d.att-1] {
+			perm[x] = true
+		}
+	}
 	for _, r := range d.rcpts {
-		if !ok[r] {
+		if perm[r] {
+			c.SetStatus(addr(r), &exterrors.SMTPError{Code: 550, EnhancedCode: exterrors.EnhancedCode{5, 1, 1},
+				Message: "scripted permanent failure", TargetName: "scripted"})
+		} else if !ok[r] {
 			c.SetStatus(addr(r), &tempErr{})
 		}
 	}
 }
+
+func (d *pDelivery) permOf() []string {
+	out := []string{}
+	if d.att-1 < len(d.t.perm) {
+		for _, x := range d.t.perm[d.att-1] {
+			for _, r := range d.rcpts {
+				if r == x {
+					out = append(out, x)
+				}
+			}
+		}
+	}
+	sort.Strings(out)
+	return out
+}
+
+// faultyBuf is an upstream body buffer whose reader fails with an I/O error half-way.
+type faultyBuf struct{ data []byte }
+
+type faultyReader struct {
+	r    *bytes.Reader
+	left int
+}
+
+func (f *faultyReader) Read(p []byte) (int, error) {
+	if f.left <= 0 {
+		return 0, syscall.EIO
+	}
+	if len(p) > f.left {
+		p = p[:f.left]
+	}
+	n, err := f.r.Read(p)
+	f.left -= n
+	return n, err
+}
+func (f *faultyReader) Close() error { return nil }
+func (b faultyBuf) Open() (io.ReadCloser, error) {
+	return &faultyReader{r: bytes.NewReader(b.data), left: len(b.data) / 2}, nil
+}
+func (b faultyBuf) Len() int      { return len(b.data) }
+func (b faultyBuf) Remove() error { return nil }
 
 type tempErr struct{}
 
@@ -248,12 +309,12 @@ func (d *pDelivery) Commit(ctx context.Context) error {
 	if deliver == nil {
 		deliver = []string{}
 	}
-	d.t.tr.Emit("Delivered", vtrace.Ev{"att": d.att, "d": deliver})
+	d.t.tr.Emit("Delivered", vtrace.Ev{"att": d.att, "d": deliver, "p": d.permOf()})
 	return nil
 }
 
 func (d *pDelivery) Abort(ctx context.Context) error {
-	d.t.tr.Emit("Delivered", vtrace.Ev{"att": d.att, "d": []string{}})
+	d.t.tr.Emit("Delivered", vtrace.Ev{"att": d.att, "d": []string{}, "p": d.permOf()})
 	return nil
 }
 
@@ -304,11 +365,15 @@ func runPreserve(t *testing.T, b PBehaviour, w *bufio.Writer, seed int64) {
 			if s.A == "Attempt" {
 				d := append([]string{}, s.D...)
 				tgt.plan = append(tgt.plan, d)
+				tgt.perm = append(tgt.perm, append([]string{}, s.P...))
 			}
 		}
+		// a bounce pipeline is configured (reports are generated for permanently failed recipients);
+		// what the reports look like is C18's business
+		bnc := &scripted.Bounce{Tr: vtrace.New(nil, b.ID), ID: idOf}
 		mk := func() *queue.Queue {
 			q, err := queue.VerifNewQueue(queue.VerifConfig{
-				Location: dir, Target: tgt, MaxTries: 12, MaxParallelism: 1,
+				Location: dir, Target: tgt, Bounce: bnc, MaxTries: 12, MaxParallelism: 1,
 				InitialRetryTime: retryDelay, RetryTimeScale: 1, PostInitDelay: 0,
 				Hostname: "mx.example.org", AutogenMsgDomain: "example.org",
 				Log: log.Logger{Out: log.NopOutput{}},
@@ -359,8 +424,20 @@ func runPreserve(t *testing.T, b PBehaviour, w *bufio.Writer, seed int64) {
 			}
 			buf = fb
 		}
+		if b.Msg.Body == "faulty" {
+			buf = faultyBuf{data: body}
+		}
 		if err := d.Body(ctx, hdr, buf); err != nil {
-			t.Fatal(err)
+			if b.Msg.Body != "faulty" {
+				t.Fatal(err)
+			}
+			// the queue refused the message it could not read completely
+			tr.Emit("AcceptRefused", vtrace.Ev{"err": err.Error()})
+			d.Abort(ctx)
+			scan()
+			tr.Emit("End", vtrace.Ev{"files": append([]string{}, spoolFiles(dir)...)})
+			q.Close()
+			return
 		}
 		tr.Emit("Accept", nil)
 		if err := d.Commit(ctx); err != nil {
